@@ -1497,7 +1497,7 @@ func runChunks(seed int64, k int, out *bufio.Writer) {
 	case 4:
 		ln = 100000 + r.Intn(100000)
 	default:
-		ln = 250000 + r.Intn(50000)
+		ln = 250000 + r.Intn(150000) // up to 400 kB: four and five chunks
 	}
 	if r.Intn(2) == 0 {
 		h.connUp(h.targets[0])
@@ -1669,7 +1669,8 @@ func runScenario(seed int64, n int, out *bufio.Writer, kind string, suffix strin
 				h.policy[t] = append(h.policy[t], c)
 			}
 			h.emit("(devpolicy)", fmt.Sprintf("%s:%s:%d", tnum(t), c.String(), burst))
-			h.nbSet([]op{{target: t, path: env.Pick(r, paths), val: fmt.Sprintf("v%d", r.Intn(1000))}}, r.Intn(2) == 0, r.Intn(4) == 0)
+			// mostly synchronous: the caller then gets the failure class of a refused change (or waits out a transient one)
+			h.nbSet([]op{{target: t, path: env.Pick(r, paths), val: fmt.Sprintf("v%d", r.Intn(1000))}}, r.Intn(4) != 0, r.Intn(4) == 0)
 			h.settle(30, 0)
 		}
 		nev = r.Intn(2)
